@@ -22,6 +22,8 @@ type PropDef struct {
 	NonTrivial func(it *Interp, ops []Op) bool
 	// Extra runs after the last op of a case.
 	Extra func(it *Interp, ops []Op)
+	// Trace makes every backend record the trace of observable results.
+	Trace bool
 }
 
 // RunStats accumulates the evidence of one test process.
@@ -101,6 +103,11 @@ func RunCase(t *rapid.T, pd *PropDef, st *RunStats, known map[string]bool) {
 	opt := pd.Opt
 	opt.Known = func(sig string) bool { return sigKnown(known, sig) }
 	it := NewInterp(cfg, pd.Policies, opt)
+	if pd.Trace {
+		for _, b := range it.B {
+			b.Trace = &strings.Builder{}
+		}
+	}
 	g := &Gen{P: pd.Profile, It: it}
 	n := rapid.IntRange(pd.Profile.MinOps, pd.Profile.MaxOps).Draw(t, "nops")
 	g.N = n
@@ -146,10 +153,13 @@ func RunCase(t *rapid.T, pd *PropDef, st *RunStats, known map[string]bool) {
 			ops = append(ops, *op)
 			it.Apply(op)
 		}
-		if pd.Extra != nil {
+		if pd.Extra != nil && !pd.Trace {
 			pd.Extra(it, ops)
 		}
 		it.Final()
+		if pd.Extra != nil && pd.Trace {
+			pd.Extra(it, ops)
+		}
 	}()
 	if failed || st.Failed {
 		return // shrink-phase executions are not counted
